@@ -28,6 +28,8 @@ def generate(tier, rng, pid='C01'):
 def run(tier, seed, rng):
     res = Result('C01', tier, seed)
     proof_stage(res, 'C01')
+    from .. import fixedprog
+    fixedprog.run_fixed(res, 'fx_macro_fragments', fixedprog.MACRO_FRAGMENTS, 'enums produced by macro_rules! with literal / ident / ty / expr fragments in attribute values, names, field types and discriminants')
     c = generate(tier, rng)
     ws = runner.Workspace('c01')
     out = correspond(res, c, ws, label='modeB')
